@@ -1031,7 +1031,7 @@ def load_corpus():
 
 
 def run(rep, tier, rng):
-    tables = TR.load()[1]
+    tables = TR.load(strict=False)[1]
     thorough = tier == "thorough"
     cases = load_corpus()
     cases += gen_sweep(rng, tables, 3 if thorough else 1)
@@ -1058,7 +1058,7 @@ def run(rep, tier, rng):
 def replay(obj):
     """bin/check C18 --replay FILE: rerun the stored case on the implementation and re-evaluate the property"""
     C.use_repo()
-    tables = TR.load()[1]
+    tables = TR.load(strict=False)[1]
     r = obj.get("replay") or obj
     case = dict(r["case"])
     for k in ("_cli", "_server", "_spec", "_kind"):
